@@ -80,6 +80,12 @@ theorem c17_abscapture_unmarshal (prev : AbsCaptureTime) (hist : List Bytes) (ra
     unmarshalOk absCaptureSpec raw (modelU absCapture prev hist raw) = true :=
   absCapture_unmarshal (absCapture.history prev hist) raw
 
+example : modelM absCapture ⟨0x0102030405060708, some (-2)⟩ ⟨7, some 99⟩ =
+    ⟨.ok [1, 2, 3, 4, 5, 6, 7, 8, 0xFF, 0xFF, 0xFF, 0xFF, 0xFF, 0xFF, 0xFF, 0xFE],
+     some ⟨.ok (), ⟨0x0102030405060708, some (-2)⟩⟩⟩ := by decide
+/-- the short form clears the offset of a dirty receiver -/
+example : modelM absCapture ⟨5, none⟩ ⟨7, some 99⟩ = ⟨.ok [0, 0, 0, 0, 0, 0, 0, 5], some ⟨.ok (), ⟨5, none⟩⟩⟩ := by decide
+
 /-- defect 19 of DESIGN §7 on the repaired model: 16 bytes, then 8 bytes into the same receiver —
     the offset of the first input is gone -/
 example : modelU absCapture ⟨0, none⟩ [[0,0,0,0,0,0,0,1, 0xFF,0xFF,0xFF,0xFF,0xFF,0xFF,0xFF,0xFE]]
@@ -264,6 +270,19 @@ theorem c17_abscapture_spelled :
     | [_, _, _, _, _, _, _], _ => simp [absCaptureUnmarshal, Res.isErr]
   · intro r raw; exact V.unmarshal_total r raw
   · intro v r; exact V.roundtrip v r rfl rfl
+
+/-- neither Marshal nor Unmarshal of any of the five codecs can panic -/
+theorem c17_total :
+    (∀ v, audioMarshal v ≠ .panic) ∧ (∀ r raw, (audioUnmarshal r raw).res ≠ .panic) ∧
+    (∀ v, tccMarshal v ≠ .panic) ∧ (∀ r raw, (tccUnmarshal r raw).res ≠ .panic) ∧
+    (∀ v, playoutMarshal v ≠ .panic) ∧ (∀ r raw, (playoutUnmarshal r raw).res ≠ .panic) ∧
+    (∀ v, absSendMarshal v ≠ .panic) ∧ (∀ r raw, (absSendUnmarshal r raw).res ≠ .panic) ∧
+    (∀ v, absCaptureMarshal v ≠ .panic) ∧ (∀ r raw, (absCaptureUnmarshal r raw).res ≠ .panic) :=
+  ⟨c17_audio_verified.marshal_total, c17_audio_verified.unmarshal_total,
+   c17_tcc_verified.marshal_total, c17_tcc_verified.unmarshal_total,
+   c17_playout_verified.marshal_total, c17_playout_verified.unmarshal_total,
+   c17_abssend_verified.marshal_total, c17_abssend_verified.unmarshal_total,
+   c17_abscapture_verified.marshal_total, c17_abscapture_verified.unmarshal_total⟩
 
 /-! ### the specification is consistent with itself
 
